@@ -1,4 +1,5 @@
 import OpusModel.Laplace
+import OpusModel.Icdf
 import Driver.Util
 /- Suite `laplace`: celt/laplace.c at the interval level (the range coder is stubbed in the harness).
 
@@ -7,7 +8,9 @@ import Driver.Util
          decall fs decay          → hash over fm = 0..32767 of (val, fl, fh), and the number of symbols
          encall fs decay lo hi    → hash over value = lo..hi of (fl, fh, value')
          p0enc p0 decay value     → ICDFs and symbols ec_laplace_encode_p0 hands to ec_enc_icdf16
-         p0dec p0 decay s v1,v2,… → value ec_laplace_decode_p0 returns when ec_dec_icdf16 answers s, v1, …  -/
+         p0dec p0 decay s v1,v2,… → value ec_laplace_decode_p0 returns when ec_dec_icdf16 answers s, v1, …
+         icdf ftb t0,t1,…         → `known=`: the table (entries up to its terminating 0) with this ftb is in the catalogue
+                                    `Opus.Icdf.allIcdfs`; `ok=`: it satisfies `icdfOk ftb`  -/
 namespace Driver.SuiteLaplace
 open Opus Opus.Laplace Driver
 
@@ -73,6 +76,14 @@ def handle : List String → String
         s!"value={v} used={vs.length - rest.length} sign={natList (signIcdf p0)} mag={mag}"
       | none => "OOB"
     | _, _, _, _ => "bad-op"
+  | ["icdf", ftb, tab] =>
+    match parseNat ftb, parseNatList tab with
+    | some ftb, some t =>
+      -- the catalogue, or the run-time placeholder `{256 - (256 >> ((nFramesPerPacket+1)*nChannels)), 0}` of enc_API.c:347-351
+      let known := Opus.Icdf.allIcdfs.any (fun e => e.ftb == ftb && e.tab == t) ||
+        (ftb == 8 && (List.range 3).any fun a => (List.range 2).any fun b => Opus.Icdf.vadLbrrPlaceholder (a + 1) (b + 1) == t)
+      s!"known={if known then 1 else 0} ok={if Opus.Icdf.icdfOk ftb t then 1 else 0}"
+    | _, _ => "bad-op"
   | _ => "bad-op"
 
 end Driver.SuiteLaplace
